@@ -559,6 +559,10 @@ def main(argv):
     spec = load_spec(pid)
     ctx = Ctx(pid, a.tier, seed)
     os.makedirs(ctx.scratch, exist_ok=True)
+    # one run per property at a time: runs against scratch worktrees temporarily install regenerated Lean files
+    # (Hive/Gen/<pid>_*.lean) in the shared lake project and restore them afterwards
+    pid_lock = open(os.path.join(VERIF, ".scratch", "lock-" + re.sub(r"[A-Z]$", "", pid) if len(pid) > 3 else os.path.join(VERIF, ".scratch", "lock-" + pid)), "w")
+    fcntl.flock(pid_lock, fcntl.LOCK_EX)
     try:
         if spec.get("regen"):
             for f in spec["regen"](ctx) or []:
